@@ -44,9 +44,9 @@ func (l *genericFileSessionLoader) Load() (*Session, error) {
 		return nil, err
 	}
 
-	if info.ModTime().Equal(l.lastEdited) && l.cached != nil {
-		return l.cached, nil
-	}
+	// modification time is not enough to trust the cached session: file can be rewritten (by another loader
+	// or another process) within the same tick of filesystem's clock, so file is always read
+	_ = info
 
 	data, err := ioutil.ReadFile(l.path)
 	if err != nil {
